@@ -225,4 +225,90 @@ def cstr_raw(s):
     return '"' + s + '"'
 
 
-FACT_GENERATORS = [("Retry.v", gen_retry), ("Persist.v", gen_persist)]
+
+# ---------------------------------------------------------------------------------------------- C13
+def list_template(node, src, hole_vars):
+    """list expression made of string constants, f-strings over `hole_vars`, `+` of lists, names in env, conditional lists"""
+    if isinstance(node, ast.List):
+        out = []
+        for e in node.elts:
+            if isinstance(e, ast.Constant) and isinstance(e.value, str):
+                out.append(("const", e.value))
+            elif isinstance(e, ast.JoinedStr):
+                txt = ""
+                for v in e.values:
+                    if isinstance(v, ast.Constant):
+                        txt += v.value
+                    else:
+                        txt += "{" + " ".join(ast.get_source_segment(src, v.value).split()) + "}"
+                out.append(("templ", txt))
+            else:
+                raise Untranslatable(f"UNTRANSLATABLE list element at line {e.lineno}")
+        return out
+    if isinstance(node, ast.BinOp) and isinstance(node.op, ast.Add):
+        return list_template(node.left, src, hole_vars) + list_template(node.right, src, hole_vars)
+    if isinstance(node, ast.Name):
+        return [("var", node.id)]
+    if isinstance(node, ast.IfExp):
+        return [("cond", " ".join(ast.get_source_segment(src, node).split()))]
+    raise Untranslatable(f"UNTRANSLATABLE list expression at line {getattr(node, 'lineno', '?')}")
+
+
+def gen_schema(srcdir, problems):
+    f = os.path.join(srcdir, "elexmodel/handlers/data/ModelResults.py")
+    src, tree = parse(f)
+    fn = find_func(tree, "ModelResultsHandler", "process_final_results")
+    if fn is None:
+        raise Untranslatable(f"UNTRANSLATABLE {f}: process_final_results not found")
+    merges = []
+    for n in ast.walk(fn):
+        if isinstance(n, ast.Assign) and len(n.targets) == 1 and isinstance(n.targets[0], ast.Name) and n.targets[0].id == "merge_on":
+            merges.append(n)
+    merges.sort(key=lambda n: n.lineno)
+    if len(merges) != 2:
+        raise Untranslatable(f"UNTRANSLATABLE {f}:{fn.lineno} expected two merge_on assignments")
+    agg_merge = " ".join(ast.get_source_segment(src, merges[0].value).split())
+    unit_merge = list_template(merges[1].value, src, [])
+    if any(k != "const" for k, _ in unit_merge):
+        raise Untranslatable(f"UNTRANSLATABLE {f}:{merges[1].lineno} unit merge_on is not a literal list")
+    key_cols = None
+    for n in ast.walk(fn):
+        if isinstance(n, ast.Assign) and len(n.targets) == 1 and isinstance(n.targets[0], ast.Name) and n.targets[0].id == "key_columns":
+            key_cols = " ".join(ast.get_source_segment(src, n.value).split())
+    hows = []
+    for n in ast.walk(fn):
+        if isinstance(n, ast.Call) and attr_path(n.func) == "pd.merge":
+            kw = {k.arg: " ".join(ast.get_source_segment(src, k.value).split()) for k in n.keywords}
+            hows.append((kw.get("how", ""), kw.get("on", "")))
+    # the per-estimand unit frame's columns
+    fn2 = find_func(tree, "ModelResultsHandler", "add_unit_intervals")
+    unit_cols = None
+    for n in ast.walk(fn2):
+        if isinstance(n, ast.Subscript) and isinstance(n.value, ast.Call) and isinstance(n.value.func, ast.Attribute) and n.value.func.attr == "sort_values":
+            unit_cols = list_template(n.slice, src, ["estimand"])
+    if unit_cols is None:
+        raise Untranslatable(f"UNTRANSLATABLE {f}:{fn2.lineno} unit column selection not found")
+    common = [v for k, v in unit_cols if k == "const"]
+    specific = [v for k, v in unit_cols if k != "const"]
+    # aggregate frames: BaseElectionModel.get_aggregate_predictions final selection
+    f3 = os.path.join(srcdir, "elexmodel/models/BaseElectionModel.py")
+    src3, tree3 = parse(f3)
+    fn3 = find_func(tree3, "BaseElectionModel", "get_aggregate_predictions")
+    agg_cols = None
+    for n in ast.walk(fn3):
+        if isinstance(n, ast.Subscript) and isinstance(n.value, ast.Call) and isinstance(n.value.func, ast.Attribute) and n.value.func.attr == "sort_values":
+            agg_cols = list_template(n.slice, src3, ["estimand"])
+    if agg_cols is None:
+        raise Untranslatable(f"UNTRANSLATABLE {f3}:{fn3.lineno} aggregate column selection not found")
+    out = [HEADER, STR_HDR]
+    out.append(f"Definition unit_merge_on : list string := {clist([cstr(v) for _, v in unit_merge])}.\n")
+    out.append(f"Definition unit_common_cols : list string := {clist([cstr(v) for v in common])}.\n")
+    out.append(f"Definition unit_specific_templates : list string := {clist([cstr(v) for v in specific])}.\n")
+    out.append(f"Definition agg_merge_on_expr : string := {cstr(agg_merge)}.\n")
+    out.append(f"Definition agg_key_columns_expr : string := {cstr(key_cols or '')}.\n")
+    out.append(f"Definition merge_calls : list (string * string) := {clist([f'({cstr(a)}, {cstr(b)})' for a, b in hows])}.\n")
+    out.append(f"Definition agg_frame_cols : list (string * string) := {clist([f'({cstr(k)}, {cstr(v)})' for k, v in agg_cols])}.\n")
+    return "".join(out), [{"name": "schema", "ok": True}]
+
+
+FACT_GENERATORS = [("Retry.v", gen_retry), ("Persist.v", gen_persist), ("Schema.v", gen_schema)]
